@@ -6,6 +6,7 @@ import (
 	"encoding/json"
 	"flag"
 	"fmt"
+	"github.com/alibaba/sentinel-golang/core/base"
 	"hash/fnv"
 	"os"
 	"path/filepath"
@@ -361,3 +362,9 @@ func MainWith(m *testing.M, property string, cleanup func()) {
 
 // ScratchCase returns a Case that is never committed to the evidence (helper runs, witnesses).
 func ScratchCase() *Case { return newCase("scratch") }
+
+// BlockSnapshot renders everything a caller can read from a block error; a block error handed to a caller must render
+// the same for as long as the caller keeps it, whatever other entries do afterwards.
+func BlockSnapshot(b *base.BlockError) string {
+	return fmt.Sprintf("type=%v msg=%q rule=%v value=%v", b.BlockType(), b.BlockMsg(), b.TriggeredRule(), b.TriggeredValue())
+}
